@@ -401,8 +401,8 @@ func RunFull(c *gen.Ctx, prop string, cfgs []xeng.Config, nops, perOp int, singl
 		seen := map[string]bool{}
 		for pi := range probes {
 			res := all[pi][i]
-			if pi == renamedIdx && (op.op.Operation != ast.Mutation || strings.Contains(op.query, "__typename")) {
-				continue // the renamed probe is there for mutations; __typename would name the root differently
+			if pi == renamedIdx && (op.op.Operation != ast.Mutation || strings.Contains(op.query, "__typename") || strings.Contains(op.query, "on Mutation")) {
+				continue // the renamed probe is there for mutations; __typename or a type condition would name the root differently
 			}
 			if res.Crashed || res.Hang {
 				meta.Direct = append(meta.Direct, gen.DirectFinding{Signature: "probe-crash-or-hang", What: "the generated server crashed or hung on an operation",
